@@ -229,6 +229,9 @@ func (w *repWorld) run(c repCase, grace time.Duration) ([]int, string) {
 	}
 	obs, wit := ccs[0], ccs[nPub+1]
 	for _, o := range c.ops {
+		if o >= hsBase {
+			continue // handshakes are exercised by the auth suite (needs an RPC server)
+		}
 		if o > 0 {
 			obs.Trust(ctx, w.ids[o-1])
 		} else {
